@@ -605,6 +605,54 @@ def forward_subst(stmts: list, keep: Set[str], params: Set[str], _top=True, _cou
 
 # ---------------------------------------------------------------------------------------------------------
 
+def sym_exec(stmts: list, params: Set[str], budget: int = 400) -> Optional[ast.expr]:
+    """Straight-line code with branches as ONE expression: assignments become substitutions, `if` becomes a conditional expression over
+    the two continuations, `raise E` becomes the leaf `__raise__(E)`, falling off the end is None. Returns None when the statements
+    contain anything else (loops that are not already next/any/comprehensions, mutation, nested definitions that are still used ...)."""
+    count = [0]
+
+    class Bail(Exception):
+        pass
+
+    def run(block, env):
+        count[0] += 1
+        if count[0] > budget:
+            raise Bail()
+        for i, s in enumerate(block):
+            rest = block[i + 1:]
+            if isinstance(s, ast.Pass) or _is_docstring(s):
+                continue
+            if isinstance(s, ast.Return):
+                return subst(s.value, env) if s.value is not None else ast.Constant(value=None)
+            if isinstance(s, ast.Raise):
+                exc = subst(s.exc, env) if s.exc is not None else ast.Constant(value=None)
+                return ast.Call(func=ast.Name(id="__raise__", ctx=ast.Load()), args=[exc], keywords=[])
+            a = _single_assign([s])
+            if a is not None:
+                env = dict(env)
+                env[a[0]] = subst(a[1], env)
+                continue
+            if isinstance(s, ast.AnnAssign) and s.value is None:
+                continue
+            if isinstance(s, ast.If):
+                t = subst(s.test, env)
+                a_ = run(list(s.body) + rest, env)
+                b_ = run(list(s.orelse) + rest, env)
+                return _ifexp(t, a_, b_)
+            if isinstance(s, (ast.FunctionDef, ast.AsyncFunctionDef)):
+                used = any(isinstance(n, ast.Name) and n.id == s.name for t in rest for n in ast.walk(t))
+                if used:
+                    raise Bail()
+                continue
+            raise Bail()
+        return ast.Constant(value=None)
+
+    try:
+        return run(stmts, {})
+    except Bail:
+        return None
+
+
 class _AlphaComps(ast.NodeTransformer):
     """comprehension variables -> _c<depth> / _c<depth>_<i>: their spelling is never meaningful"""
 
@@ -772,6 +820,10 @@ class Normalizer:
                 sub.body = forward_subst(sub.body, set(keep), sp | params)
                 sub.body = norm_block(sub.body) or [ast.Pass()]
             fn = _ExprNorm().visit(fn)
+            if _single_return(fn.body) is None:
+                e = sym_exec(fn.body, params)
+                if e is not None:
+                    fn.body = [ast.Return(value=_ExprNorm().visit(e))]
             if ast.dump(fn) == before:
                 break
         fn = canon_globals(self.pm, fn)
